@@ -232,6 +232,22 @@ class CFG:
                 stack.append(s)
         return self.reach - seen
 
+    def reach_avoiding_edges(self, start, edges):
+        """blocks reachable from start when the given (src, dst) edges may not be taken: a block outside the result is
+        only ever entered through one of those edges (disjunctive control dependence: `a || b`)"""
+        edges = set(edges)
+        seen = set()
+        stack = [start]
+        while stack:
+            x = stack.pop()
+            if x in seen:
+                continue
+            seen.add(x)
+            for s in self.succ[x]:
+                if (x, s) not in edges:
+                    stack.append(s)
+        return seen
+
     # ------------------------------------------------------------------ loops
     def back_edges(self):
         out = []
